@@ -129,7 +129,8 @@ NOT_BUILT = "check not built yet in this session (see DESIGN.md §2 for the plan
 # thorough tier: number of consecutive seeds the driver runs (./check --rounds N merges the evidence); chosen so that a
 # thorough run of one check takes roughly 10-30 minutes on this machine
 ROUNDS = {"C03": 8, "C05": 10, "C06": 10, "C07": 10, "C08": 12, "C09": 8, "C11": 8, "C12": 5, "C13": 6, "C15": 5, "C19": 3, "C20": 5,
-          "C21": 6, "C23": 6, "C24": 8, "C25": 3, "C28": 4, "C29": 6, "C30": 6, "C33": 3, "C34": 2}
+          "C21": 6, "C23": 6, "C24": 8, "C25": 3, "C28": 4, "C29": 6, "C30": 6, "C33": 3, "C34": 2, "C38": 3, "C39": 4,
+          "C40": 10, "C42": 3, "C43": 5, "C44": 3, "C45": 6, "C46": 8, "C26": 3, "C27": 3, "C36": 2, "C37": 2}
 
 checks = []
 for i in ids:
